@@ -2,3 +2,6 @@
 pub mod rng;
 pub mod proto;
 pub mod swayrun;
+pub mod ircorpus;
+pub mod proggen;
+pub mod tygen;
